@@ -7,6 +7,7 @@ package c20
 import (
 	"context"
 	"encoding/base64"
+	"errors"
 	"fmt"
 	"net/url"
 	"strings"
@@ -40,6 +41,7 @@ func r1Values() []string {
 		`alpn="h2" key65400="x ech=y z" ech="b2xk"`,    // a quoted value with blanks, one of its words looks like an ech entry
 		`alpn="h2" ech`, // the key alone (an empty value in presentation format)
 		`alpn="h2" key65400="C:\\" ech="b2xk" port=8443`, // an escaped backslash right before the closing quote
+		"alpn=\"h2\"\tech=\"b2xk\"\tport=8443",           // tabs between the parameters (white space of the presentation format)
 	}
 }
 
@@ -120,6 +122,12 @@ type scenario struct {
 	R2Empty bool `json:"r2_without_parameters,omitempty"`
 	// BigPad: the other records of the (paged) zone carry 4 KB parameter strings: a page of 20 records is larger than 64 KiB
 	BigPad bool `json:"other_records_have_4kB_values,omitempty"`
+	// ExternalEdit: between the calls somebody else edits the zone (r1's value is put back to what it was at the start; a
+	// publisher that remembers an earlier listing would not see it)
+	ExternalEdit bool `json:"zone_edited_by_someone_else_between_calls,omitempty"`
+	// ManyPages: the zone has 1003 more records and the API serves ONE record per page (r1 stays on the first page, r2 moves to the
+	// last one)
+	ManyPages bool `json:"one_record_per_page_1005_pages,omitempty"`
 }
 
 // tokens of a parameter string, ech entries separated out
@@ -180,6 +188,28 @@ func run(r *ev.Run, sc scenario) {
 			}
 		}
 	}
+	if sc.ManyPages {
+		api.MaxPerPage = 1
+		for _, z := range api.Zones {
+			if z.Name != "example.org" {
+				continue
+			}
+			var pad []*cfmem.Record
+			for i := 0; i < 1003; i++ {
+				pad = append(pad, &cfmem.Record{ID: fmt.Sprintf("many%d", i), Name: fmt.Sprintf("m%d.example.org", i), Priority: 1, Target: ".", Value: `alpn="h2"`})
+			}
+			// r1 first, the padding, then everything else (r2 among it)
+			z.Records = append(append([]*cfmem.Record{z.Records[0]}, pad...), z.Records[1:]...)
+		}
+	}
+	r1Initial := ""
+	for _, z := range api.Zones {
+		for _, rec := range z.Records {
+			if rec.ID == "rec1" {
+				r1Initial = rec.Value
+			}
+		}
+	}
 	ctx, cancelCtx := context.WithCancel(context.Background())
 	defer cancelCtx()
 	curCall := 0
@@ -197,6 +227,15 @@ func run(r *ev.Run, sc scenario) {
 	}()
 	oc := "ok"
 	for ci, c := range sc.Calls {
+		if sc.ExternalEdit && ci > 0 {
+			for _, z := range api.Zones {
+				for _, rec := range z.Records {
+					if rec.ID == "rec1" {
+						rec.Value = r1Initial
+					}
+				}
+			}
+		}
 		before := api.Snapshot()
 		curCall = ci
 		api.ResetCall()
@@ -225,6 +264,12 @@ func run(r *ev.Run, sc scenario) {
 						r.Violation("result-cannot-be-printed", fmt.Sprintf("%s target %d: status code %d; String()/Err().Error() panics: %v", tag, ti, res.Code, p), sc)
 					}
 				}()
+				if res.Code == publish.StatusError && res.Error != nil && !errors.Is(res.Err(), res.Error) && !isUncomparable(res.Error) {
+					r.Violation("err-does-not-wrap-the-cause", fmt.Sprintf("%s target %d: errors.Is(result.Err(), result.Error) is false (Err() = %v): the cause cannot be inspected through the error Err() returns", tag, ti, res.Err()), sc)
+				}
+				if res.Code == publish.StatusError && sc.FailKind == "cancel-context" && ctx.Err() != nil && errors.Is(res.Error, context.Canceled) && !errors.Is(res.Err(), context.Canceled) {
+					r.Violation("err-does-not-wrap-the-cause", fmt.Sprintf("%s target %d: the request was cancelled (Error = %v) but errors.Is(result.Err(), context.Canceled) is false", tag, ti, res.Error), sc)
+				}
 				if res.Code != publish.StatusError && res.Error != nil {
 					r.Violation("error-field-set-without-error-status", fmt.Sprintf("%s target %d: status %q, yet its Error field holds %v (another target's error)", tag, ti, res.String(), res.Error), sc)
 				}
@@ -356,6 +401,16 @@ func run(r *ev.Run, sc scenario) {
 	r.Eval(fmt.Sprintf("%+v", sc), fmt.Sprintf("calls=%d %s", len(sc.Calls), oc))
 }
 
+// isUncomparable: errors.Is compares with ==, which panics for error values of slice type (the API's error list is one)
+func isUncomparable(err error) (un bool) {
+	defer func() {
+		if recover() != nil {
+			un = true
+		}
+	}()
+	return !(err == err)
+}
+
 func dupKind(ts []int, i int) string {
 	for j := 0; j < i; j++ {
 		if ts[j] == ts[i] {
@@ -468,6 +523,17 @@ func Run(r *ev.Run) {
 				scs = append(scs, scenario{V1: 1, Calls: []call{{l, c}}, FailCall: -1}, scenario{V1: 1, Calls: []call{{l, c}, {l, 1 - c}}, FailCall: -1})
 			}
 		}
+	}
+	// somebody else edits the zone between two publishes of the same list; a zone of 1005 one-record pages
+	for _, l := range [][]int{{0}, {0, 1}, {1, 0}} {
+		for c := 0; c < 2; c++ {
+			for _, v1 := range []int{1, 3, 6} {
+				scs = append(scs, scenario{V1: v1, Calls: []call{{l, c}, {l, c}}, FailCall: -1, ExternalEdit: true}, scenario{V1: v1, Calls: []call{{l, c}, {l, c}, {l, c}}, FailCall: -1, ExternalEdit: true})
+			}
+		}
+	}
+	for _, l := range [][]int{{1}, {0, 1}, {1, 2}} {
+		scs = append(scs, scenario{V1: 1, Calls: []call{{l, 0}}, FailCall: -1, ManyPages: true}, scenario{V1: 3, Calls: []call{{l, 0}, {l, 1}}, FailCall: -1, ManyPages: true})
 	}
 	// the zone named with another letter case, alone and next to the canonical spelling
 	for _, l := range [][]int{{8}, {8, 0}, {0, 8}, {8, 1}, {8, 2}} {
